@@ -3,7 +3,10 @@ use crate::streaming::partitions::partition::Partition;
 use crate::streaming::polling_consumer::PollingConsumer;
 use crate::streaming::storage::SystemStorage;
 use crate::streaming::topics::consumer_group::ConsumerGroup;
+#[cfg(not(kani))]
 use ahash::AHashMap;
+#[cfg(kani)]
+use iggy::verif_model::map::AHashMap;
 use core::fmt;
 use iggy::compression::compression_algorithm::CompressionAlgorithm;
 use iggy::consumer::{Consumer, ConsumerKind};
@@ -16,7 +19,10 @@ use iggy::utils::timestamp::IggyTimestamp;
 use iggy::utils::topic_size::MaxTopicSize;
 use std::sync::atomic::{AtomicU32, AtomicU64, Ordering};
 use std::sync::Arc;
+#[cfg(not(kani))]
 use tokio::sync::RwLock;
+#[cfg(kani)]
+use iggy::verif_model::lock::RwLock;
 use tracing::info;
 
 const ALMOST_FULL_THRESHOLD: f64 = 0.9;
